@@ -51,7 +51,8 @@ def run_timeline(rec, case):
     monitor = rng.random() < 0.75
     rto = rng.random() < 0.5
     rec.evaluations += 1
-    sim = scen.make_sim(srv, server_kwargs={
+    sim = scen.make_sim(srv, real_ws_driver=bool(case.get('tws')) and not rto,
+                        server_kwargs={
         'ping_interval': (pi, grace) if grace else pi, 'ping_timeout': pt,
         'monitor_clients': monitor}, policy='random',
         seed=rng.randrange(1 << 30), yield_prob=rng.choice([0.0, 0.2]),
@@ -379,6 +380,8 @@ def run_shard(spec):
         c['aio'] = 'H'
     for c in cases[2::4]:
         c['aio'] = 'N'     # ... and behind the tornado adapter
+    for c in cases[1::3]:
+        c['tws'] = True    # threaded server: the real simple_websocket driver
     for case in cases:
         scen.run_cases(rec, [case], run_timeline)
         if rec._vkeys.get('runaway-heartbeat-activity', 0) >= 2 or \
